@@ -341,6 +341,15 @@ func (w *World) oracleC02Create(m *simkube.Mutation, ip string, oldF, newF *FipI
 	if id == nil || w.identityEverHadRanges(newF.Key) {
 		return
 	}
+	if oldF != nil && oldF.Key == id.App.poolPrefix() {
+		// the pod took one of its app's reserved IPs (filter re-keys it): clause (b) is met for this scheduling attempt,
+		// whatever happens to that IP afterwards (a reload that no longer configures it, an administrator's release)
+		for _, uid := range id.UIDs {
+			if fw := w.M.filterWin[uid]; fw != nil {
+				fw.tookReserved = true
+			}
+		}
+	}
 	// (a) an identity that already holds a (still configured) IP is never given another one
 	for _, other := range w.storeIPsOfKey(newF.Key) {
 		if other != ip && w.inNewestConf(other) {
@@ -373,7 +382,7 @@ func (w *World) oracleC02Create(m *simkube.Mutation, ip string, oldF, newF *FipI
 			if pp := w.podByUID[uid]; pp == nil || w.gone[uid] || pp.finished() {
 				continue
 			}
-			if fw := w.M.filterWin[uid]; fw != nil && fw.closed && fw.hadReserve {
+			if fw := w.M.filterWin[uid]; fw != nil && fw.closed && fw.hadReserve && !fw.tookReserved {
 				w.fail("C02.fresh-instead-of-reserved", "fresh-instead-of-reserved",
 					"pod %q got fresh IP %s (by %s) although its app held an unowned reserved IP under %q throughout its last filter call (steps %d..)",
 					newF.Key, ip, m.By.Name, id.App.poolPrefix(), fw.start)
